@@ -56,6 +56,12 @@ Post(h, A) ==
          [heap |-> h, ret |-> RNew(VBin(A.f, h[A.x], h[A.y]))]
     [] A.op = "ibin" ->          \* x f= y         (returns x itself)
          [heap |-> Put(h, A.x, VBin(A.f, h[A.x], h[A.y])), ret |-> RObj(A.x)]
+    [] A.op = "abin" ->          \* x f arr   where arr is the raw array of object y (array-like operand, fresh result)
+         [heap |-> h, ret |-> RNew(VBin(A.f, h[A.x], h[A.y]))]
+    [] A.op = "rabin" ->         \* arr f x   (reflected, array-like on the left)
+         [heap |-> h, ret |-> RNew(VBin(A.f, h[A.y], h[A.x]))]
+    [] A.op = "iabin" ->         \* x f= arr
+         [heap |-> Put(h, A.x, VBin(A.f, h[A.x], h[A.y])), ret |-> RObj(A.x)]
     [] A.op = "sbin" ->          \* x f c          (scalar broadcast: c stands for c*one)
          [heap |-> h, ret |-> RNew(VBin(A.f, h[A.x], VConst(n, A.a)))]
     [] A.op = "rsbin" ->         \* c f x          (reflected)
@@ -99,6 +105,10 @@ Acts(h) ==
                    f \in Ops2, x \in Obj, y \in Obj } : DivOk(h, A.f, h[A.y]) }
   \cup { A \in { [NoAct EXCEPT !.op = "ibin", !.f = f, !.x = x, !.y = y] :
                    f \in Ops2, x \in Obj, y \in Obj } : DivOk(h, A.f, h[A.y]) }
+  \cup { A \in { [NoAct EXCEPT !.op = op, !.f = f, !.x = x, !.y = y] :
+                   op \in {"abin", "iabin"}, f \in Ops2, x \in Obj, y \in Obj } : A.x # A.y /\ DivOk(h, A.f, h[A.y]) }
+  \cup { A \in { [NoAct EXCEPT !.op = "rabin", !.f = f, !.x = x, !.y = y] :
+                   f \in Ops2, x \in Obj, y \in Obj } : A.x # A.y /\ DivOk(h, A.f, h[A.x]) }
   \cup { A \in { [NoAct EXCEPT !.op = "sbin", !.f = f, !.x = x, !.a = a] :
                    f \in Ops2, x \in Obj, a \in Scalars } : A.f # "div" \/ A.a # CZero }
   \cup { A \in { [NoAct EXCEPT !.op = "rsbin", !.f = f, !.x = x, !.a = a] :
@@ -131,11 +141,11 @@ Spec == Init /\ [][Next]_vars
 (* ------------------------------ properties ----------------------------- *)
 \* the object an action writes (0 = none)
 Target(A) == CASE A.op \in {"lincomb", "lincomb1", "multiply", "divide"} -> A.o
-               [] A.op \in {"ibin", "isbin", "ipow", "assign", "set_zero"} -> A.x
+               [] A.op \in {"ibin", "iabin", "isbin", "ipow", "assign", "set_zero"} -> A.x
                [] OTHER -> 0
 
 \* operands read by an action
-Reads(A) == CASE A.op \in {"lincomb", "bin", "ibin", "multiply", "divide"} -> {A.x, A.y}
+Reads(A) == CASE A.op \in {"lincomb", "bin", "ibin", "abin", "rabin", "iabin", "multiply", "divide"} -> {A.x, A.y}
               [] A.op = "assign" -> {A.y}
               [] A.op \in {"zero", "one", "set_zero"} -> {}
               [] OTHER -> {A.x}
